@@ -15,7 +15,12 @@ from vlib.serialize import Ser
 
 def int_delays(rng):
     ops = '~&|^nw+-*<>=xcs'
-    tab = {op: rng.choice([0, 1, 1, 2, 3, 5]) for op in ops}
+    if rng.random() < 0.3:
+        # exact integer delays that are huge and nearly tied: arrival times differing by 1 part in 10**12 are different
+        B = 10 ** 12
+        tab = {op: rng.choice([0, B, B, B + 1, 2 * B - 1, 2 * B, 3 * B + 1]) for op in ops}
+    else:
+        tab = {op: rng.choice([0, 1, 1, 2, 3, 5]) for op in ops}
     # width-dependent: the function receives the bitwidth of the gate's first argument
     funcs = {op: (lambda width, d=d: d + (width % 3 if d else 0)) for op, d in tab.items()}
     # any negative delay marks the end of a path (documented), not only -1
@@ -70,6 +75,10 @@ def all_paths(block, s, d):
     src, dst = block.net_connections()
     out = []
     budget = [100000]
+    # the read ports of a memory are the 'm' nets of the block that name it (not what the MemBlock recorded)
+    readports = {}
+    for rn_ in sorted(block.logic_subset('m'), key=str):
+        readports.setdefault(id(rn_.op_param[1]), []).append(rn_)
 
     def walk(w, path, seen_wires):
         budget[0] -= 1
@@ -81,7 +90,7 @@ def all_paths(block, s, d):
             if any(n is p for p in path):
                 continue
             if n.op == '@':
-                for rn in n.op_param[1].readport_nets:
+                for rn in readports.get(id(n.op_param[1]), []):
                     nw = rn.dests[0]
                     if any(rn is p for p in path):
                         continue
@@ -110,6 +119,10 @@ def check_design(ctx, d, rng, label):
     replay = {'kind': 'design', 'label': label, 'block': ser.data}
     funcs, tab = int_delays(rng)
     replay['delays'] = tab
+    # the default delay table before any custom table has been used on this block
+    with contextlib.redirect_stdout(io.StringIO()):
+        ta_def0 = analysis.TimingAnalysis(block=blk)
+    def0 = {w.name: t for w, t in ta_def0.timing_map.items()}
     with contextlib.redirect_stdout(io.StringIO()):
         ta = analysis.TimingAnalysis(block=blk, gate_delay_funcs=funcs)
     want = longest_paths(blk, tab)
@@ -173,12 +186,36 @@ def check_design(ctx, d, rng, label):
     if not all(isinstance(v, (int, float)) and v >= 0 for v in ta2.timing_map.values()):
         ctx.violation('timing-default', 'default timing map has a negative / non-numeric entry', replay)
         ok = False
+    def2 = {w.name: t for w, t in ta2.timing_map.items()}
+    if def2 != def0:
+        bad = sorted(n for n in def0 if def2.get(n) != def0[n])[:1] or sorted(set(def2) ^ set(def0))[:1]
+        ctx.violation('timing-default-changed', 'TimingAnalysis() with the default delays gives %r for wire %s after an analysis with custom '
+                      'gate_delay_funcs, %r before it' % (def2.get(bad[0]), bad[0], def0.get(bad[0])), replay)
+        ok = False
+    # default read-port delay: the documented SRAM model of the memory's size and its number of ports in the block
+    for n_ in sorted(blk.logic_subset('m'), key=str):
+        mem_ = n_.op_param[1]
+        rp = sum(1 for x in blk.logic_subset('m') if x.op_param[1] is mem_)
+        wp = sum(1 for x in blk.logic_subset('@') if x.op_param[1] is mem_)
+        want_d = 270 * 0.130 ** 1.38 * (2 ** mem_.addrwidth * mem_.bitwidth) ** 0.25 * max(rp, wp) ** 1.30 + 1.05
+        got_d = ta2.timing_map[n_.dests[0]] - ta2.timing_map[n_.args[0]]
+        if abs(got_d - want_d) > 1e-6 * max(1.0, want_d):
+            ctx.violation('timing-default-memory', 'default read delay of memory %s (%d read / %d write ports in the block) is %r, the '
+                          'documented estimate gives %r' % (mem_.name, rp, wp, got_d, want_d), replay)
+            ok = False
+            break
     # fanout = number of net argument positions reading the wire
-    for w in blk.wirevector_set:
+    # (in half of the designs an unrelated block is the working block while fanout() is called)
+    from vlib import passlib as _pl
+    foreign_f = rng.random() < 0.5
+    ctx.count('fanout-working-block', 'foreign' if foreign_f else 'same')
+    fo = _pl.run_in(blk, lambda: {w: analysis.fanout(w) for w in blk.wirevector_set}, foreign=foreign_f)
+    for w in sorted(blk.wirevector_set, key=lambda w_: w_.name):
         want_f = sum(1 for n in blk.logic for a in n.args if a is w)
-        if analysis.fanout(w) != want_f:
-            ctx.violation('fanout', 'fanout(%s) = %d, %d net argument positions read it' % (w.name, analysis.fanout(w), want_f),
-                          dict(replay, wire=w.name))
+        if fo[w] != want_f:
+            ctx.violation('fanout', 'fanout(%s) = %d, %d net argument positions read it%s' % (
+                w.name, fo[w], want_f, ' (called while another block was the working block)' if foreign_f else ''),
+                dict(replay, wire=w.name))
             ok = False
             break
     # paths() with src/dst left out (all Inputs / all Outputs of the block given), called while an unrelated block is
@@ -231,6 +268,32 @@ def check_design(ctx, d, rng, label):
                 ctx.violation('distance', 'distance(%s, %s) disagrees with the summed net values' % (s.name, t.name), replay)
                 ok = False
                 break
+    # several sources and destinations in one call (internal wires too, so that a path from one source may run
+    # through another requested source or destination): each entry is the single-pair answer
+    inner = sorted((n.dests[0] for n in blk.logic if n.dests and not isinstance(n.dests[0], (Output, Register))), key=lambda w: w.name)
+    if ok and srcs and dsts:
+        ms = rng.sample(srcs, min(len(srcs), rng.randint(1, 3))) + rng.sample(inner, min(len(inner), rng.randint(0, 3)))
+        md_ = rng.sample(dsts, min(len(dsts), rng.randint(1, 3))) + rng.sample(inner, min(len(inner), rng.randint(0, 2)))
+        ms = list(dict.fromkeys(ms))
+        md_ = list(dict.fromkeys(md_))
+        wants = {(s, t): all_paths(blk, s, t) for s in ms for t in md_}
+        if all(v is not None for v in wants.values()):
+            try:
+                multi = analysis.paths(ms if rng.random() < 0.7 else tuple(ms), md_, block=blk)
+                ctx.count('paths-multi', '%dx%d' % (min(len(ms), 4), min(len(md_), 4)))
+                for (s, t), want_p in wants.items():
+                    a = sorted(path_key(p) for p in multi[s][t])
+                    b = sorted(path_key(p) for p in want_p)
+                    if a != b:
+                        ctx.violation('paths-multi', 'paths(%r, %r)[%s][%s] has %d paths, there are %d simple net paths' % (
+                            [w.name for w in ms], [w.name for w in md_], s.name, t.name, len(a), len(b)),
+                            dict(replay, srcs=[w.name for w in ms], dsts=[w.name for w in md_], src=s.name, dst=t.name))
+                        ok = False
+                        break
+            except Exception as e:  # noqa
+                ctx.violation('paths-multi-raises', 'paths(%r, %r) raised %s: %s' % (
+                    [w.name for w in ms], [w.name for w in md_], type(e).__name__, str(e)[:100]), replay)
+                ok = False
     return ok
 
 
